@@ -27,6 +27,10 @@ pub enum ReplyFault {
     /// blind signature (with the real secret key) on the expected commitment shifted by
     /// `delta` in message slot `slot` (0 id, 1 nonce/close tag, 2 lock, 3 customer, 4 merchant balance)
     Shift { slot: usize, delta: i64 },
+    /// blind signature (real key) on the expected close state with another constant in the tag
+    /// slot: the CLOSE bytes in another limb or byte order, 0, 1, -CLOSE, 2*CLOSE (a customer that
+    /// accepts a "legacy" or mis-encoded tag releases its revocation secret against it)
+    AltTag { variant: u8 },
     /// a valid reply of the other type (pay token where a closing signature is due, or vice versa)
     WrongType,
     /// the right commitment signed under another merchant's key
@@ -657,6 +661,26 @@ impl<'a> World<'a> {
                 let c = exp + m.pk.y1s[*slot % 5] * refc::int_scalar(d as i128);
                 refc::sig_bytes(&refc::blind_sign(&m.pk, &m.sk, &c, &u))
             }
+            ReplyFault::AltTag { variant } => {
+                let w = u64::from_le_bytes(*b"\0\0\0CLOSE");
+                let wb = u64::from_be_bytes(*b"\0\0\0CLOSE");
+                let tag = refc::close_tag();
+                let alts = [
+                    Scalar::from_raw([w, 0, 0, 0]),
+                    Scalar::from_raw([0, w, 0, 0]),
+                    Scalar::from_raw([0, 0, w, 0]),
+                    Scalar::from_raw([wb, 0, 0, 0]),
+                    Scalar::from_raw([0, 0, 0, wb]),
+                    Scalar::zero(),
+                    Scalar::one(),
+                    -tag,
+                    tag + tag,
+                    tag + Scalar::one(),
+                ];
+                let alt = alts[*variant as usize % alts.len()];
+                let c = exp + m.pk.y1s[1] * (alt - tag);
+                refc::sig_bytes(&refc::blind_sign(&m.pk, &m.sk, &c, &u))
+            }
             ReplyFault::WrongType => refc::sig_bytes(&refc::blind_sign(&m.pk, &m.sk, &other, &u)),
             ReplyFault::OtherKey => {
                 let om = if self.mctx.len() > 1 {
@@ -1010,6 +1034,7 @@ impl<'a> World<'a> {
         match f {
             ReplyFault::Garbage => "garbage",
             ReplyFault::Shift { .. } => "shifted-commitment",
+            ReplyFault::AltTag { .. } => "alternative-tag",
             ReplyFault::WrongType => "wrong-type",
             ReplyFault::OtherKey => "other-key",
             ReplyFault::Replay { .. } => "replay",
